@@ -36,6 +36,10 @@ def configs(tier):
                     continue
                 out.append(('%dx%dx%d-c%d-a%d-%s' % (T, M, K, nc, na, mode),
                             {'T': T, 'M': M, 'K': K, 'nc': nc, 'na': na, 'mode': mode}))
+    # inputs that are not C-contiguous (Fortran-ordered views): the binning must not depend on the memory layout
+    for (T, M, K) in ([(2, 1, 2)] if tier == 'quick' else [(2, 1, 2), (2, 2, 1), (1, 2, 2)]):
+        for mode in ('energy', 'amplitude'):
+            out.append(('%dx%dx%d-c2-a1-%s-layoutF' % (T, M, K, mode), {'T': T, 'M': M, 'K': K, 'nc': 2, 'na': 1, 'mode': mode, 'layout': 'F'}))
     return out
 
 
@@ -45,6 +49,10 @@ def harness(h):
     f1 = h.reals('f1', T * M).reshape(T, M)
     f2 = h.reals('f2', T * M * K).reshape(T, M, K)
     a2 = h.reals('a2', T * M * K).reshape(T, M, K)
+    if h.params.get('layout') == 'F':
+        f1 = h.reals('f1', T * M).reshape(M, T).T
+        f2 = np.transpose(h.reals('f2', T * M * K).reshape(K, M, T), (2, 1, 0))
+        a2 = np.transpose(h.reals('a2', T * M * K).reshape(K, M, T), (2, 1, 0))
     ce, _ = emd.spectra.define_hist_bins(1, 5, nc)
     ae, _ = emd.spectra.define_hist_bins(0, 3, na)
     try:
